@@ -77,18 +77,29 @@ def run(res, tier, seed, driver_ok):
         check = rnd.random() < 0.5
         res.evaluations += 1
         res.distinct.add((seed_arm, n))
+        # how the start is handed over: a private copy, not at all (the solver starts from the arm's stored state), or the very array
+        # the arm was last given (so the stored state and the start may share memory)
+        form = rnd.choice(['copy', 'copy', 'omitted', 'same_array'])
         try:
             with contextlib.redirect_stdout(io.StringIO()):
-                if path == 'constrained':
-                    th, ok = arm.IK(tm(goal), start.copy(), check=check)
+                kw = {'check': check}
+                if path != 'constrained':
+                    kw['protect'] = True
+                if form == 'copy':
+                    th, ok = arm.IK(tm(goal), start.copy(), **kw)
+                elif form == 'omitted':
+                    arm.FK(start.copy())
+                    th, ok = arm.IK(tm(goal), **kw)
                 else:
-                    th, ok = arm.IK(tm(goal), start.copy(), check=check, protect=True)
+                    shared = start.copy()
+                    arm.FK(shared)
+                    th, ok = arm.IK(tm(goal), shared, **kw)
         except Exception as e:
             bad('raises:IK:%s:%s' % (path, type(e).__name__), 'IK raised', {'arm': kind, 'path': path}, repr(e)); continue
         th = np.asarray(th, dtype=float).reshape(-1)
         ok = bool(ok)
         inp = {'arm': kind, 'seed_arm': seed_arm, 'base6': list(base6), 'limit': [lo.tolist(), hi.tolist()], 'pos_tol': pos_tol, 'rot_tol': rot_tol, 'goal_kind': gk, 'theta_goal': thg.tolist(),
-               'start': start.tolist(), 'path': path, 'check': check}
+               'start': start.tolist(), 'path': path, 'check': check, 'start_form': form}
         T_fk = spec.fk(baseT, spec.M, th)           # independent FK of the returned vector (no clamping: the vector itself is judged)
         if ok:
             stats['success'] += 1
@@ -213,7 +224,14 @@ def replay(data):
     else:
         goal = spec.fk(baseT, spec.M, np.array(inp['theta_goal']))
     with contextlib.redirect_stdout(io.StringIO()):
-        th, ok = arm.IK(tm(goal), np.array(inp['start']), check=False, protect=(inp['path'] == 'free'))
+        form = inp.get('start_form', 'copy')
+        st0 = np.array(inp['start'], dtype=float)
+        if form == 'omitted':
+            arm.FK(st0.copy()); th, ok = arm.IK(tm(goal), check=False, protect=(inp['path'] == 'free'))
+        elif form == 'same_array':
+            arm.FK(st0); th, ok = arm.IK(tm(goal), st0, check=False, protect=(inp['path'] == 'free'))
+        else:
+            th, ok = arm.IK(tm(goal), st0, check=False, protect=(inp['path'] == 'free'))
     V = err_twist_ref(spec.fk(baseT, spec.M, np.asarray(th).reshape(-1)), goal)
     print('success =', ok, ' orientation error', np.linalg.norm(V[:3]), 'tol', inp['rot_tol'], ' position error', np.linalg.norm(V[3:]), 'tol', inp['pos_tol'])
     return (not ok) or (np.linalg.norm(V[:3]) <= inp['rot_tol'] * (1 + 1e-6) and np.linalg.norm(V[3:]) <= inp['pos_tol'] * (1 + 1e-6))
